@@ -342,13 +342,13 @@ def run_job(job):
             if finite and len(finite) == len(vals):
                 lit = rng.choice(finite)
                 if lit == int(lit) and abs(lit) < 1e15:
-                    op = rng.choice([">", ">=", "<", "<=", "=", "!="])
+                    op = rng.choice([">", ">=", "<", "<=", "=", "!=", "===", "!==", "eeq", "ene", "gte", "lt", "ne"])
                     littxt = str(int(lit))
                     qw = "path from %s where %s %s %s into list" % (frm, t, op, littxt)
                     rw = run(qw)
                     if rw.verdict == "ok" and rw.rc == 0 and not rw.err:
                         got = set(os.path.normpath(os.path.join(w, x)) for x in rw.rows())
-                        exp = set(p for p in table if p in envs and model.int_cmp(op, ev(a, envs[p]), float(int(lit))))
+                        exp = set(p for p in table if p in envs and model.int_cmp(model.canon_op(op), ev(a, envs[p]), float(int(lit))))
                         if got != exp:
                             res.viol("`where %s %s %s`: %d entries misclassified against the expression's IEEE value" % (t, op, littxt, len(got ^ exp)),
                                      {"query": qw, "diff": sorted(os.path.basename(x) for x in got ^ exp)[:6]})
